@@ -450,48 +450,23 @@ def _re_to_g(pattern):
 
 
 def t_terminals(ctx, cls, gr):
-    ctx.rule("T", "terminal vocabulary covers what the property's inputs use (supersets allowed)")
+    ctx.rule("T", "token vocabulary: every example token of the property's vocabulary is accepted by the sub-grammar's regular envelope")
+    from .. import automata
+
     spec = _spec("grammar_terminals.json", cls)
-    for var, want in spec.items():
+    n = 0
+    for var, examples in spec.items():
         if var not in gr.env or not hasattr(gr.env[var], "kind"):
             ctx.bad("T", "grammar variable %s" % var, gr.func.where(), "grammar variable %s no longer exists" % var, gr.func.qname,
                     "variable " + var)
             continue
         g = gr.env[var]
-        ts = terminals(g)
-        lits = {t.a["text"] for t in ts if t.kind == "lit"} | {t.a["text"].lower() for t in ts if t.kind == "clit"} | {
-            t.a["text"].upper() for t in ts if t.kind == "clit"}
-        for lit in want.get("literals", []):
-            ok = lit in lits or lit.lower() in lits or any(t.kind == "word" and len(lit) == 1 and lit in t.a["chars"] for t in ts)
-            ctx.check(ok, "T", "%s knows the literal %r" % (var, lit), gr.func.where(g.src) if g.src is not None else gr.func.where(),
-                      "%s no longer contains the literal %r: lines using it cannot be parsed" % (var, lit), gr.func.qname,
-                      "%s literal %s" % (var, lit))
-        if "word_includes" in want:
-            need = set(want["word_includes"])
-            words = [t for t in ts if t.kind == "word"]
-            best = max((len(need & set((t.a["chars"] or "") + (t.a.get("body") or ""))) for t in words), default=0)
-            cover = [t for t in words if need <= set((t.a["chars"] or "") + (t.a.get("body") or ""))]
-            ctx.check(bool(cover), "T", "%s has a character set covering %r" % (var, want["word_includes"][:24]),
-                      gr.func.where(g.src) if g.src is not None else gr.func.where(),
-                      "no Word terminal of %s accepts all of %r (best covers %d of %d characters): tokens using the missing "
-                      "characters are rejected" % (var, want["word_includes"], best, len(need)), gr.func.qname, "%s charset" % var)
-            if var == "scale" and cover:
-                ctx.check(cover[0].a.get("exact") == 1, "T", "scale is exactly one character", gr.func.where(),
-                          "scale token is not exact=1", gr.func.qname, "scale exact")
-        for nm, sub in want.get("named", {}).items():
-            nodes = find_named(g, nm)
-            ctx.check(bool(nodes), "T", "%s has a slot named %r" % (var, nm), gr.func.where(g.src) if g.src is not None else gr.func.where(),
-                      "%s no longer has a slot named %r" % (var, nm), gr.func.qname, "%s slot %s" % (var, nm))
-            for nd in nodes:
-                need = set(sub.get("word_includes", ""))
-                words = [t for t in terminals(nd) if t.kind == "word"]
-                okw = any(need <= set((t.a["chars"] or "") + (t.a.get("body") or "")) for t in words)
-                ctx.check(okw, "T", "%s.%s accepts %r" % (var, nm, sub.get("word_includes")),
-                          gr.func.where(g.src) if g.src is not None else gr.func.where(),
-                          "the %r slot of %s no longer accepts all of %r" % (nm, var, sub.get("word_includes")), gr.func.qname,
-                          "%s.%s charset" % (var, nm))
-        for s in want.get("regex_matches", []):
-            pats = [t.a["pattern"] for t in ts if t.kind == "regex"]
-            ok = any(re.fullmatch(p, s) for p in pats)
-            ctx.check(ok, "T", "%s matches %r" % (var, s), gr.func.where(g.src) if g.src is not None else gr.func.where(),
-                      "the alias pattern %s no longer matches %r" % (pats, s), gr.func.qname, "%s regex %s" % (var, s))
+        nfa, start = automata.envelope(g)
+        for ex in examples:
+            n += 1
+            ok = nfa.accepts(ex, start)
+            ctx.check(ok, "T", "%s accepts %r" % (var, ex), gr.func.where(g.src) if g.src is not None else gr.func.where(),
+                      "the sub-grammar `%s` (even in its regular over-approximation) rejects %r, a token of the vocabulary the "
+                      "property promises to recover: lines containing it cannot be parsed as written" % (var, ex), gr.func.qname,
+                      "%s rejects %r" % (var, ex))
+    ctx.floor("T", "token examples", n, 60)
